@@ -169,6 +169,10 @@ def check_extractor(np, layout, helpers, pp, detect_regions, multi, merge, stray
         for k, poly in enumerate(le.engine.detect(None)[0]):
             pl.regions.append(layout.RegionLayout('r%d' % (k + 1), poly))
     pl = le.process_page(np.zeros((150, 260, 3), dtype=np.uint8), pl)
+    if not detect_regions:
+        # a layout that already carries lines (a second pass over the same page, or a page loaded from PAGE XML with lines) is
+        # analysed again: the lines found now replace the old ones
+        pl = le.process_page(np.zeros((150, 260, 3), dtype=np.uint8), pl)
     ids = [l.id for l in pl.lines_iterator()]
     bad = []
     if len(set(ids)) != len(ids):
